@@ -28,7 +28,9 @@ class Ctx:
         self.weight = 1.0
         self.deviations = 0
 
-    def choose(self, weights_or_n, label=None):
+    def choose(self, weights_or_n, label=None, free=False):
+        """free=True: alternatives at this point do not count as deviations (e.g. a forced
+        context switch in schedule exploration)."""
         if isinstance(weights_or_n, int):
             n, w = weights_or_n, None
             default = 0
@@ -48,10 +50,10 @@ class Ctx:
                 )
         else:
             c = default
-        self.trace.append((n, w, c, default, label))
+        self.trace.append((n, w, c, default, label, free))
         self.pos += 1
         self.weight *= (1.0 / n) if w is None else w[c]
-        if c != default:
+        if c != default and not free:
             self.deviations += 1
         return c
 
@@ -85,18 +87,18 @@ def explore(run_fn, on_leaf, bound=None, max_leaves=None):
             break
         # deviations used by the prefix part are already fixed; alternatives past the prefix
         dev_before = 0
-        for i, (n, w, c, default, _label) in enumerate(ctx.trace):
+        for i, (n, w, c, default, _label, free) in enumerate(ctx.trace):
             if i >= len(prefix):
                 for alt in range(n):
                     if alt == c:
                         continue
                     if w is not None and not w[alt] > 0:
                         continue
-                    cost = dev_before + (1 if alt != default else 0)
+                    cost = dev_before + (1 if (alt != default and not free) else 0)
                     if bound is not None and cost > bound:
                         continue
                     stack.append([t[2] for t in ctx.trace[:i]] + [alt])
-            if c != default:
+            if c != default and not free:
                 dev_before += 1
     return {
         "leaves": leaves,
